@@ -119,6 +119,9 @@ Failed(e) ==
              /\ e.fg.ok /\ e.fg.st = "done" /\ e.fg.len = acc)
   \cup Chk("C06.trailer",       (ph = "open" /\ e.ev = "Close" /\ kind # "flate") =>
              /\ e.ref.hdr /\ e.ref.trl)
+  \cup Chk("C06.readback",      (ph = "open" /\ e.ev = "Close" /\ kind # "flate") =>
+             /\ e.std.ok /\ e.std.st = "done" /\ e.std.len = acc /\ e.std.hdr
+             /\ e.fg.ok /\ e.fg.st = "done" /\ e.fg.len = acc /\ e.fg.hdr)
   \cup Chk("C20.expansion",     (ph = "open" /\ e.ev = "Close" /\ kind = "flate" /\ accel /\ flushes = 0) =>
              emitted + e.bytes <= acc + acc \div 32 + 256)
   \cup Chk("C20.repeats",       (ph = "open" /\ e.ev = "Close" /\ kind = "flate" /\ accel /\ flushes = 0
